@@ -398,11 +398,28 @@ func execC13(x *X, scAny any) {
 				}
 			}
 			if sc.Discover && !sc.Real && followErr == nil && !sc.Reconnect {
-				nFollow += 2
+				// (the application asks about versions of its own choosing, fewer than it is configured for, or none:
+				// what it is told does not renegotiate anything)
+				nFollow += 5
+				lowest := cset[0]
+				for _, v := range cset {
+					if ttlv.CompareVersions(v, lowest) < 0 {
+						lowest = v
+					}
+				}
 				if _, err := cl.Request(context.Background(), &payloads.DiscoverVersionsRequestPayload{}); err != nil {
 					followErr = err
 				}
 				if _, err := cl.Batch(context.Background(), &payloads.ActivateRequestPayload{UniqueIdentifier: "in-batch"}, &payloads.DiscoverVersionsRequestPayload{}); err != nil && followErr == nil {
+					followErr = err
+				}
+				if _, err := cl.Request(context.Background(), &payloads.DiscoverVersionsRequestPayload{ProtocolVersion: []kmip.ProtocolVersion{lowest}}); err != nil && followErr == nil {
+					followErr = err
+				}
+				if _, err := cl.Batch(context.Background(), &payloads.DiscoverVersionsRequestPayload{ProtocolVersion: []kmip.ProtocolVersion{lowest, kmip.V1_0}}, &payloads.ActivateRequestPayload{UniqueIdentifier: "after-discover-in-batch"}); err != nil && followErr == nil {
+					followErr = err
+				}
+				if _, err := cl.Request(context.Background(), &payloads.ActivateRequestPayload{UniqueIdentifier: "after-discover"}); err != nil && followErr == nil {
 					followErr = err
 				}
 			}
